@@ -34,6 +34,9 @@ HOSTILE = """
 #[allow(dead_code)] pub struct Some;
 #[allow(dead_code)] pub struct Target;
 #[allow(dead_code)] pub fn drop() {}
+#[allow(unused_imports)] use ::core::borrow::{Borrow as _, BorrowMut as _};
+#[allow(unused_imports)] use ::core::ops::{Deref as _, DerefMut as _};
+#[allow(unused_imports)] use ::core::convert::{AsMut as _, Into as _, From as _};
 """
 # `Target` clashes with the user-chosen names of the C07 generator, so it is only used for fn/mod/leaf-trait twins
 WATCH = {"Impl", "core", "entrait", "std", "implementation", "unimock", "mockall", "__unimock", "Future", "Send", "Sync", "Sized",
